@@ -24,7 +24,7 @@ class Monitor:
         self.undo = []
 
     def _enter(self, agent, what):
-        t = thrx.SCHED.current.name if thrx.SCHED is not None else "?"
+        t = thrx.cur().current.name if thrx.cur() is not None else "?"
         self.calls[what.split(":")[0]] = self.calls.get(what.split(":")[0], 0) + 1
         if agent is not None:
             if t != "thread_" + agent:
